@@ -2,6 +2,8 @@ import json
 props=[json.loads(l) for l in open('/verif/properties.jsonl')]
 import glob,os
 claimed={os.path.basename(f)[:-5]:json.load(open(f)) for f in sorted(glob.glob('/verif/checks/claims.d/C*.json'))}
+accepted=set(json.load(open('/verif/checks/accepted.json')))
+claimed={k:v for k,v in claimed.items() if k in accepted}
 na_reason={}
 if os.path.exists('/verif/checks/not_applicable.json'): na_reason=json.load(open('/verif/checks/not_applicable.json'))
 checks=[]; na=[]
